@@ -39,7 +39,7 @@ def expressions(tier):
     yield ("unary-neg",), "-F"
     yield ("unary-not",), "not B"
     for op in ("+", "-", "*", "/", "//", "%", "**"):
-        for l, r in (("N", "3"), ("7", "2"), ("F", "N"), ("7.5", "2"), ("M", "N")):
+        for l, r in (("N", "3"), ("7", "2"), ("F", "N"), ("7.5", "2"), ("M", "N"), ("2", "N"), ("7", "F")):
             yield ("numeric", op), f"{l} {op} {r}"
     for op in ("==", "!=", "<", "<=", ">", ">="):
         for l, r in (("N", "3"), ("F", "N"), ("S", "T"), ('"a"', '"b"')):
@@ -257,6 +257,37 @@ def run(tier):
             out.fail(f"annotation|const-{'accepted' if r.get('ok') else 'rejected'}-but-local-binding-{'accepted' if verdict_fn[(ann, init_ty)] else 'rejected'}|{order}", {"program": src, "annotation": ann, "initializer_type": init_ty, "same_binding_in_a_function_body_accepted": verdict_fn[(ann, init_ty)], "checker": r.get("errs")})
         else:
             sig_ok.add(("annotation", ann, init_ty, order))
+    # (c) the type the const evaluator gives an initializer is the type the same expression has in a function body: under each
+    #     of 4 annotations the const declaration and the local binding get the same verdict (consts referred to: annotated,
+    #     and - second layout - un-annotated)
+    treqs, tmeta = [], []
+    for i, (sig, e) in enumerate(exprs):
+        if not res[i].get("ok") or sig[0] == "collection":
+            continue
+        for ann in lits:
+            for dn, d in (("annotated", DECLS), ("unannotated", decls_u)):
+                if dn == "unannotated" and not names_re.search(e):
+                    continue
+                for where, src in (("const", d + f"const K: {ann} = {e}\n"), ("local", d + f"\n\ndef t() -> None:\n    x: {ann} = {e}\n")):
+                    treqs.append({"id": len(tmeta), "op": "types", "src": src})
+                    tmeta.append((i, ann, dn, where, src))
+    tres = serve.run_requests(treqs)
+    tv = {}
+    for k, (i, ann, dn, where, src) in enumerate(tmeta):
+        r = tres[k]
+        tv[(i, ann, dn, where)] = ("crashed" if (r.get("crashed") or r.get("panic")) else bool(r.get("ok")), src, r.get("errs"))
+    for (i, ann, dn, where), (v, src, errs) in tv.items():
+        if where != "const":
+            continue
+        n_static += 1
+        sig, e = exprs[i]
+        lv, lsrc, lerrs = tv[(i, ann, dn, "local")]
+        if v == "crashed" or lv == "crashed":
+            out.fail(f"{sig[0]}|checker-crashed-or-hung", {"expr": e, "program": src if v == "crashed" else lsrc})
+        elif v != lv:
+            out.fail(f"{sig[0]}|const-initializer-{'accepted' if v else 'rejected'}-as-{ann}-but-local-binding-{'accepted' if lv else 'rejected'}", {"expr": e, "annotation": ann, "referenced_consts": dn, "program": src, "const_errors": errs, "local_program": lsrc, "local_errors": lerrs})
+        else:
+            sig_ok.add(sig + ("typed-as", ann, v))
     # ---- cycles -------------------------------------------------------------------------------------------------
     gs = list(graphs())
     reqs = [{"id": m, "op": "types", "src": src} for m, es, src, cyc in gs]
@@ -340,7 +371,7 @@ def run(tier):
         "distinct_nontrivial": len(sig_ok),
         "rule": "const-evaluable expressions: literals, const references, unary -/not, 7 numeric operators, 6 comparisons, and/or, string +, in / not in, every string index in "
         "{-6,-5,-1,0,1,4,5,9} on 4 strings, every slice with start/end in {absent,-7,-2,0,1,3,9} and step in {absent,1,2,-1,-2,0} (quick: reduced 3-part product), depth-2 "
-        "slice/index/concat/membership combinations, tuples and frozen collections; every initializer that refers to another const again with that const declared after it and / or un-annotated (result and referenced values must not change); 4 annotations x 4 initializer types x 3 positions relative to a user of the const (verdict must equal that of the same binding in a function body); all 512 dependency graphs on 3 consts x 4 initializer shapes (annotated sum, unannotated sum, bare alias, annotated alias); static oracle = CPython evaluation vs the checker's "
+        "slice/index/concat/membership combinations, tuples and frozen collections; every initializer that refers to another const again with that const declared after it and / or un-annotated (result and referenced values must not change); every accepted initializer under 4 annotations as a const and as a local binding in a function body (same verdict; referenced consts annotated / un-annotated); 4 annotations x 4 initializer types x 3 positions relative to a user of the const (verdict must equal that of the same binding in a function body); all 512 dependency graphs on 3 consts x 4 initializer shapes (annotated sum, unannotated sum, bare alias, annotated alias); static oracle = CPython evaluation vs the checker's "
         "verdict and computed const value; dynamic oracle = printed const == same expression in a function body == reference",
         "samples": [{"sig": list(s), "expr": e} for s, e in common.pick_samples(exprs)],
         "exhaustive": True,
